@@ -330,7 +330,12 @@ static int make_listen_socket(void)
 		int one = 1;
 		fd = socket(AF_INET, SOCK_STREAM | SOCK_NONBLOCK, 0);
 		if (fd >= 0) setsockopt(fd, SOL_SOCKET, SO_REUSEADDR, &one, sizeof one);   /* ports with TIME_WAIT leftovers stay usable */
-		if (fd < 0 || bind(fd, (struct sockaddr *)&sin, sizeof sin) < 0) return -1;
+		if (fd < 0) return -1;
+		/* port 0: failing means ephemeral-port exhaustion on this machine -- an environment condition; wait for it to drain */
+		for (int attempt = 0; bind(fd, (struct sockaddr *)&sin, sizeof sin) < 0; attempt++) {
+			if ((errno != EADDRINUSE && errno != EADDRNOTAVAIL) || attempt >= 3000) return -1;
+			MC_COUNT("env_bind_retries"); usleep(20000);
+		}
 	}
 	return fd;
 }
@@ -484,7 +489,11 @@ static void body(void)
 	M.enabled = !C.disabled; M.cb = C.cb0 ? 1 : 0; M.had_cb = C.cb0;
 	if (C.kind == K_TCP_BIND) {
 		struct sockaddr_in sin; memset(&sin, 0, sizeof sin); sin.sin_family = AF_INET; sin.sin_addr.s_addr = htonl(INADDR_LOOPBACK);
-		lev = evconnlistener_new_bind(base, C.cb0 ? acb1 : NULL, C.cb0 ? &ud1 : NULL, flags, 8, (struct sockaddr *)&sin, sizeof sin);
+		for (int attempt = 0; attempt < 3000; attempt++) {   /* see make_listen_socket(): port exhaustion is waited out */
+			lev = evconnlistener_new_bind(base, C.cb0 ? acb1 : NULL, C.cb0 ? &ud1 : NULL, flags, 8, (struct sockaddr *)&sin, sizeof sin);
+			if (lev || (errno != EADDRINUSE && errno != EADDRNOTAVAIL)) break;
+			MC_COUNT("env_bind_retries"); usleep(20000);
+		}
 		if (lev) lfd = evconnlistener_get_fd(lev);
 	} else {
 		lfd = make_listen_socket();
